@@ -5,6 +5,7 @@ import Driver.Rights
 import Driver.Trace
 import Driver.Lock
 import Driver.Server
+import Driver.Filter
 open Lean
 
 def dispatch (j : Json) : Json :=
@@ -14,6 +15,7 @@ def dispatch (j : Json) : Json :=
   | "rights" => Driver.handleRights j
   | "trace" => Driver.handleTrace j
   | "server" => Driver.handleServer j
+  | "filter" => Driver.handleFilter j
   | "ping" => Driver.obj [("r", Json.str "pong")]
   | _ => Driver.obj [("error", Json.str "bad-model")]
 
